@@ -215,8 +215,10 @@ func NewDec(allowed uint32) *Dec {
 func (d *Dec) SetAllowed(n uint32) {
 	d.Allowed = n
 	if n < d.T.Max {
+		if !d.MustUpdate || n < d.MustUpdateMax {
+			d.MustUpdateMax = n // the smallest limit since the last block has to be announced first
+		}
 		d.MustUpdate = true
-		d.MustUpdateMax = n
 	}
 }
 
